@@ -318,6 +318,98 @@ func describeCtx(c *apd.Context) plan.Ctx {
 	return plan.Ctx{P: c.Precision, Emax: c.MaxExponent, Emin: c.MinExponent, Traps: uint32(c.Traps), Round: name}
 }
 
+// recent is one remembered clean-room evaluation (in-process re-evaluation
+// oracle).
+type recent struct {
+	def  *OpDef
+	c    plan.Ctx
+	x, y *plan.Dec
+	i, f bool
+	n    int64
+	s    string
+	out  Outcome
+	step int
+}
+
+// reEvaluate runs remembered clean-room evaluations again, now, in this
+// process: the same call on the same values must give the same outcome however
+// many operations were executed in between (C06: independent of every operation
+// executed earlier in the process).
+func reEvaluate(ring []recent, addViol func(plan.Violation), now int, st map[string]uint64) {
+	for k := range ring {
+		rc := &ring[k]
+		if rc.def == nil {
+			continue
+		}
+		a := &Args{C: BuildCtx(rc.c), N: rc.n, S: rc.s}
+		if rc.x != nil {
+			a.X = BuildDec(*rc.x)
+		}
+		if rc.y != nil {
+			a.Y = BuildDec(*rc.y)
+		}
+		if rc.def.WritesD && rc.def.Kind != KModf {
+			a.D = new(apd.Decimal)
+		}
+		if rc.i {
+			a.I = new(apd.Decimal)
+		}
+		if rc.f {
+			a.F = new(apd.Decimal)
+		}
+		beginOp(4 * soloOpCap)
+		got := Exec(rc.def, a)
+		st["reevaluated"]++
+		if got != rc.out {
+			x, y := "", ""
+			if rc.x != nil {
+				x = rc.x.Key()
+			}
+			if rc.y != nil {
+				y = rc.y.Key()
+			}
+			addViol(plan.Violation{Property: "C06", Class: "C06/history-dependence/" + rc.def.Name, Key: "reevaluation", Step: now,
+				Detail: fmt.Sprintf("%s ctx=%+v x=%s y=%s n=%d s=%q, a clean-room call on fresh values, gave\n  at step %d: %s\n  again after step %d: %s", rc.def.Name, rc.c, x, y, rc.n, rc.s, rc.step, rc.out, now, got)})
+			return
+		}
+	}
+}
+
+// aliasReproduces rebuilds the step's alias pattern on fresh objects holding
+// the pre-step operand values and reports whether the disagreement with the
+// clean-room outcome shows again.
+func aliasReproduces(def *OpDef, a *Args, rc *recent, want Outcome, traps apd.Condition) bool {
+	var ox, oy *apd.Decimal
+	if rc.x != nil {
+		ox = BuildDec(*rc.x)
+	}
+	if rc.y != nil {
+		if a.Y == a.X {
+			oy = ox
+		} else {
+			oy = BuildDec(*rc.y)
+		}
+	}
+	pickObj := func(p *apd.Decimal) *apd.Decimal {
+		switch {
+		case p == nil:
+			return nil
+		case p == a.X:
+			return ox
+		case p == a.Y:
+			return oy
+		}
+		return new(apd.Decimal)
+	}
+	b := &Args{C: a.C, N: a.N, S: a.S, X: ox, Y: oy, D: pickObj(a.D), I: pickObj(a.I), F: pickObj(a.F)}
+	beginOp(4 * soloOpCap)
+	got := Exec(def, b)
+	if got.Panic != want.Panic || got.Err != want.Err || got.Cond != want.Cond || got.Aux != want.Aux {
+		return true
+	}
+	return compareDest(def, want, traps) && got.DVal != want.DVal
+}
+
 // cleanRoom runs def on fresh, distinct copies of the operand values with a
 // fresh zero destination (and fresh zero Modf outputs).
 func cleanRoom(def *OpDef, a *Args) (Outcome, *Args) {
@@ -379,6 +471,8 @@ func RunReg(p *plan.Plan) *plan.Result {
 	var a Args
 	var digest uint64
 	nontrivial := false
+	ring := make([]recent, 48)
+	lastReEval := -100
 	for si := range tk.Steps {
 		step := &tk.Steps[si]
 		def := Ops[step.Op]
@@ -433,8 +527,18 @@ func RunReg(p *plan.Plan) *plan.Result {
 			}
 			histOut.Encode(&rec)
 		}
-		// operands of the clean-room call must be untouched too (distinct objects)
-		_ = crArgs
+		{
+			rc := recent{def: def, c: describeCtx(a.C), i: a.I != nil, f: a.F != nil, n: a.N, s: a.S, out: want, step: si}
+			if a.X != nil {
+				d := DescribeDec(a.X)
+				rc.x = &d
+			}
+			if a.Y != nil {
+				d := DescribeDec(a.Y)
+				rc.y = &d
+			}
+			ring[si%len(ring)] = rc
+		}
 		// snapshots of everything
 		for i, d := range all {
 			SnapDec(d, &snaps[i])
@@ -465,10 +569,26 @@ func RunReg(p *plan.Plan) *plan.Result {
 		}
 		if mismatch != "" {
 			// attribution: storage sharing (C05) if the pattern is not
-			// all-distinct, otherwise prior destination state (C06)
+			// all-distinct, otherwise prior destination state (C06) — but only
+			// if the reference itself is stable: when a second clean-room call on
+			// the same (still unmodified) operand values no longer gives what
+			// the first one gave, the call depends on what was executed before
+			// it, which is C06's history clause whatever the alias pattern.
 			vp, cls, key := "C06", "C06/prior-state/"+step.Op, prior
 			if pat != "distinct" {
 				vp, cls, key = "C05", "C05/alias/"+step.Op, pat
+			}
+			if rc := ring[si%len(ring)]; rc.def == def {
+				one := []recent{rc}
+				before := len(res.Violations)
+				reEvaluate(one, addViol, si, st)
+				if len(res.Violations) > before || seen["C06/history-dependence/"+step.Op+"|reevaluation"] {
+					vp, cls, key = "C06", "C06/history-dependence/"+step.Op, "reevaluation"
+				} else if vp == "C05" && !aliasReproduces(def, &a, &rc, want, traps) {
+					// the same alias pattern on fresh objects agrees with the
+					// clean-room call: storage sharing is not the cause
+					vp, cls, key = "C06", "C06/history-dependence/"+step.Op, "unstable"
+				}
 			}
 			addViol(plan.Violation{Property: vp, Class: cls, Key: key, Step: si,
 				Detail: fmt.Sprintf("step %d %s ctx=%+v alias=%s prior-destination=%s: %s differs from the clean-room call\n  operands: x=%s y=%s n=%d s=%q\n  clean-room: %s\n  in-place:   %s",
@@ -540,6 +660,18 @@ func RunReg(p *plan.Plan) *plan.Result {
 			globalSnap.Rebase()
 		}
 		digest = plan.Mix(digest ^ hashString(got.String()))
+		// state added by the tree under test (caches ...) changed: is any earlier
+		// call affected?
+		if globalSnap != nil && globalSnap.LooseChanged() {
+			st["loose_package_state_changes"]++
+			if si-lastReEval >= 16 {
+				lastReEval = si
+				reEvaluate(ring, addViol, si, st)
+			}
+		}
+	}
+	if p.Run%4 == 0 || lastReEval >= 0 {
+		reEvaluate(ring, addViol, len(tk.Steps), st)
 	}
 	if globalSnap != nil {
 		if d := globalSnap.Check(); d != "" {
@@ -640,7 +772,7 @@ func ReHistory(path string, seed uint64, max int) (n int, viols []plan.Violation
 		if rec.F {
 			a.F = new(apd.Decimal)
 		}
-		beginOp(0)
+		beginOp(4 * soloOpCap)
 		got := Exec(def, a)
 		n++
 		if got.String() != rec.Out && !seen[rec.Op] {
